@@ -153,6 +153,7 @@ Ctor(st0, bp, s) ==
               SetVar(SetVar(GovCore(st, s), s, "FISC_BAL", DVar(<< s, "INC" >>)), s, "T", DConst0)
          [] k = "Treasury" ->
               SetVar(SetVar(GovCore(st, s), s, "DEM_MON", DZero), s, "T", DZero)
+         [] k = "RestOfWorld" -> st    \* a user's bare Sector placed in the ExternalSector country: its books are in the NUMERAIRE
          [] k = "PlainGovernment" ->   \* a user's own government: a bare Sector with DEM_<good> and T = '0.'
               SetVar(SetVar(st, s, "DEM_" \o d.good, DZero), s, "T", DConst0)
          [] k \in {"CentralBank", "GoldStandardCentralBank"} ->
@@ -218,7 +219,8 @@ PostCtor(st, bp, s) ==
                     IN SetVar(c, s, "DEM_MON", DSum(M1({<< s, "F" >>, << s, "WGT_MON" >>}, 1)))
                ELSE st1
     \* a GIFT variable, and a variable XTRA built with AddTermToEquation from a product of two names
-    IN IF d.gift THEN SetVar(SetVar(st2, s, "GIFT", DAtom), s, "XTRA", DAtom) ELSE st2
+    IN IF d.gift /\ d.kind = "RestOfWorld" THEN SetVar(st2, s, "GIFT", DAtom)     \* a constant amount
+       ELSE IF d.gift THEN SetVar(SetVar(st2, s, "GIFT", DAtom), s, "XTRA", DAtom) ELSE st2
 
 (* statements that need two objects to exist (issued after all declarations): AddMarket on a multi-output business *)
 RECURSIVE LateMarkets(_, _, _)
@@ -232,7 +234,8 @@ RECURSIVE RegisterCurrencies(_, _, _)
 RegisterCurrencies(st, bp, curs) ==
     IF curs = {} THEN st
     ELSE LET c == CHOOSE x \in curs : TRUE
-             st1 == SetVar(st, XRid(bp), c, DAtom)
+             \* the rate of the NUMERAIRE against itself is the constant 1; the others are exogenous paths
+             st1 == SetVar(st, XRid(bp), c, IF c = "NUMERAIRE" THEN DSum(M1({}, 1)) ELSE DAtom)
              st2 == SetVar(st1, FXid(bp), "NET_" \o c, DEmpty)
              st3 == SetVar(st2, FXid(bp), "F_" \o c,
                            DSum(MAdd(M1({<< FXid(bp), "LAG_F_" \o c >>}, 1), {<< FXid(bp), "NET_" \o c >>}, 1)))
@@ -252,7 +255,12 @@ ConcatCountries(bp, decl, ccs) ==
     ELSE SectorsOfCountry(bp, decl, Head(ccs)) \o ConcatCountries(bp, decl, Tail(ccs))
 
 (* Model.GetSectors() order: for country in CountryList: for sector in SectorList *)
-GenOrder(bp, decl) == ConcatCountries(bp, decl, CountryOrder(bp))
+\* the ExternalSector is a country of its own in Model.CountryList (first or last); the user's sectors placed in it are
+\* generated at that position (its own XR / FX / GOLD have no _GenerateEquations)
+GenOrder(bp, decl) ==
+    LET own == ConcatCountries(bp, decl, CountryOrder(bp))
+        ext == SectorsOfCountry(bp, decl, "EXT")
+    IN IF bp.external = "first" THEN ext \o own ELSE own \o ext
 
 ZoneCountries(bp, cur) == SelectSeq(CountryOrder(bp), LAMBDA cc : CurOfCountry(bp, cc) = cur)
 ZoneSectors(bp, decl, cur) == ConcatCountries(bp, decl, ZoneCountries(bp, cur))
@@ -696,11 +704,13 @@ C01_SFC == phase = "final" =>
 C07_NumeraireValueZero == (phase = "final" /\ HasExt(bp)) =>
     LET ids == IdsOf(st)
     IN \A i \in 1..2 :
+         \* summed over all currencies including the NUMERAIRE (whose book also holds the legs of senders and
+         \* receivers that keep their accounts in the NUMERAIRE)
          FoldSet(LAMBDA c, acc :
                    (acc + Den(st, ids, << FXid(bp), "NET_" \o c >>, "cur", i)
                           * Den(st, ids, << XRid(bp), c >>, "cur", i)) % P,
-                 0, ZoneCurrencies(bp))
-         = (P - Den(st, ids, << FXid(bp), "NET_NUMERAIRE" >>, "cur", i)) % P
+                 0, ZoneCurrencies(bp) \cup {"NUMERAIRE"})
+         = 0
 
 C07_RefusedWithoutExternal == (phase \in {"final"} /\ ~HasExt(bp)) =>
     /\ \A i \in 1..Len(bp.flows) : CurOf(bp, bp.flows[i].src) = CurOf(bp, bp.flows[i].dst)
